@@ -88,7 +88,11 @@ std::string join_line(std::string const &d, std::vector<std::string> const &piec
   std::string const a{fcppt::algorithm::join_strings(pieces, d)};
   std::list<std::string> const l(pieces.begin(), pieces.end());
   std::string const b{fcppt::algorithm::join_strings(l, d)};
-  return a == b ? show_str(a) : show_str(a) + "!=" + show_str(b);
+  std::string r{a == b ? show_str(a) : show_str(a) + "!=" + show_str(b)};
+  // converse round trip for a one-character delimiter: split(join(pieces)) == pieces ?
+  if (d.size() == 1)
+    r += std::string{" rt="} + b01(fcppt::algorithm::split_string(a, d[0]) == pieces);
+  return r;
 }
 
 std::vector<std::string> all_strings(std::string const &alpha, ulong const len)
@@ -298,9 +302,10 @@ int gen_next(int &g)
   return r;
 }
 
-std::string im_show(int const v)
+std::string im_show(int const &v, std::size_t const i)
 {
-  return std::to_string(v) + " " + std::to_string(st->im.impl().size()) + "|" + nl(st->im.impl());
+  // the returned reference must be the element inside the container
+  return std::to_string(v) + (&v == &st->im.impl()[i] ? "" : "!ref") + " " + std::to_string(st->im.impl().size()) + "|" + nl(st->im.impl());
 }
 
 // ---------------------------------------------------------------- dispatch
@@ -531,10 +536,10 @@ std::string handle(std::vector<std::string> const &t)
     if (op == "imget")
     {
       int &r{st->im.get(*i, im_type::insert_function{[] { return gen_next(st->g); }})};
-      return im_show(r);
+      return im_show(r, *i);
     }
     int &r{st->im[*i]};
-    return im_show(r);
+    return im_show(r, *i);
   }
   return bad;
 }
